@@ -59,7 +59,7 @@ def formatter(
         values = [v for _, _, v in value.table]
         values = yield from utils.map_strict_with_hook(values, _formatter)
         pairs = list(zip(keys, values))
-        pairs.sort(key=lambda pair: pair[0])
+        pairs.sort()
         formatted = ", ".join(f"{k}: {v}" for k, v in pairs)
         return "{" + formatted + "}"
 
